@@ -54,10 +54,21 @@ End(e) == /\ e.ev = "End"
           /\ l' = l + 1 /\ UNCHANGED <<ref, bad, why, salted, pos, pend>>
 
 \* ---------- salted seeds: a function of (seed, salt), injective in salt -----
+\* (u_prng.go:47 newSaltedPRNGSeed = HKDF(SHA3-256, secret = seed, salt = salt, no info), 32 bytes)
+\* A Salt event carries two observations: out = what newSaltedPRNGSeed returned, ind = what an independent HKDF
+\* (Go standard library crypto/hkdf + crypto/sha3, not the code under test) returned for the same (seed, salt).
+\* Laws: a function of (seed, salt); distinct salts give distinct seeds; equal to the independent derivation.
+\* A collision between salts that differ only in trailing NUL bytes is HMAC's zero padding of its key (known,
+\* reported under its own reason); any other collision (e.g. a salt cut to a fixed length) is "salt-collision".
+RECURSIVE StripNul(_)
+StripNul(b) == IF b # <<>> /\ b[Len(b)] = 0 THEN StripNul(SubSeq(b, 1, Len(b) - 1)) ELSE b
+Colliding(e) == {s \in salted : s.seed = e.seed /\ s.salt # e.salt /\ s.out = e.out}
 SaltWhy(e) == IF e.err # "" THEN "salt-error"
               ELSE IF Len(e.out) # 32 THEN "salt-length"
               ELSE IF \E s \in salted : s.seed = e.seed /\ s.salt = e.salt /\ s.out # e.out THEN "salt-not-deterministic"
-              ELSE IF \E s \in salted : s.seed = e.seed /\ s.salt # e.salt /\ s.out = e.out THEN "salt-collision"
+              ELSE IF \E s \in Colliding(e) : StripNul(s.salt) # StripNul(e.salt) THEN "salt-collision"
+              ELSE IF Colliding(e) # {} THEN "salt-collision:trailing-nul"
+              ELSE IF e.inderr = "" /\ e.ind # e.out THEN "salt-differs-from-independent-hkdf"
               ELSE IF ~RerunOK THEN "rerun-differs"
               ELSE ""
 Salt(e) == /\ e.ev = "Salt"
